@@ -135,8 +135,15 @@ def mujoco_extra_treatment(mjm, st, mjd=None):
     L = np.tril(D)
     D = L + L.T - np.diag(np.diag(D))
   rhs = d.qfrc_smooth + d.qfrc_constraint
+  A = M - h * D
+  if integ == int(mujoco.mjtIntegrator.mjINT_IMPLICITFAST):
+    ev = np.linalg.eigvalsh(A)
+    if ev[0] <= 1e-6 * ev[-1]:
+      # velocity feedback with negative damping made M - h*qDeriv indefinite: the Cholesky-based implicitfast update is
+      # undefined (MuJoCo's factorisation returns finite garbage, MJWarp's NaN) - nothing to compare
+      return "indefinite"
   try:
-    v = np.asarray(st["qvel"], dtype=np.float64) + h * np.linalg.solve(M - h * D, rhs)
+    v = np.asarray(st["qvel"], dtype=np.float64) + h * np.linalg.solve(A, rhs)
   except np.linalg.LinAlgError:
     return True
   err = float(np.abs(v - d.qvel).max())
@@ -343,7 +350,11 @@ def judge_world(rec, mjm, got, w, st, ref, noise, prefix="", ctx="", a_acc=A_ACC
       rec.count("worlds_ungated")
       rec.count("ungated:" + why.split(" mujoco=")[0])
       return "ungated"
-  if mujoco_extra_treatment(mjm, st):
+  ext = mujoco_extra_treatment(mjm, st)
+  if ext == "indefinite":
+    rec.count("worlds_implicitfast_system_indefinite(negative damping)")
+    return "ungated"
+  if ext:
     rec.count("worlds_skew_mujoco313_implicit_extra_treatment")
     return "ungated"
   accscale = max(1.0, float(np.abs(ref["qacc"]).max())) if nv else 1.0
